@@ -855,9 +855,18 @@ func parseAnchored(r string, isUpdate bool) (*GhostUpdate, error) {
 		r = strings.TrimSpace(r[7:])
 	} else if strings.HasPrefix(r, "after ") {
 		r = strings.TrimSpace(r[6:])
+		if !isUpdate {
+			// "assert after @anchor: [label] P": P is checked in the state right after the anchored
+			// call / statement (results and the effects of the statement are visible)
+			gu.When = "after!"
+		}
 	}
 	if !isUpdate {
-		gu.When = "before"
+		if gu.When == "after!" {
+			gu.When = "after"
+		} else {
+			gu.When = "before"
+		}
 	}
 	if !strings.HasPrefix(r, "@") {
 		return nil, fmt.Errorf("anchor expected")
